@@ -121,7 +121,7 @@ def c05(tier, seed):
 
 
 def c11(tier, seed):
-    ops = BASE + CONV + ["Borrow", "BorCopy", "Enter", "Exit", "PtrEq"]
+    ops = BASE + CONV + ["Borrow", "BorCopy", "Enter", "Exit", "PtrEq", "MakeMut"]
     return [lay("C11", tier, "layout_matrix_" + tier[0]), stage(LY.widths_stage, "C11", tier, "widths_" + tier[0]),
             sized("C11", tier, "sized_raw_" + tier[0], ops, 3 if tier == "quick" else 4, 2, 1),
             slices("C11", tier, "slices_raw_" + tier[0], 3 if tier == "quick" else 4, 2, 2)] + swaps("C11", tier, seed, hows=("init", "thin"))
